@@ -82,7 +82,7 @@ Section Flow.
   Proof.
     induction b as [|a' op|l IH|l IH|x IH|x IH|x IH|l IH] using body_ind'; intros t H.
     - cbn [emits] in H. subst t. cbn. lia.
-    - cbn [emits] in H. destruct H as [[e [-> [Ha [Ho _]]]] | [-> _]]; [|cbn; lia].
+    - cbn [emits] in H. destruct H as [[e [-> [Ha [Ho _]]]] | ->]; [|cbn; lia].
       unfold weight, ev_weight. cbn [map list_sum fold_right maxcount]. rewrite Ha, Ho.
       destruct (Nat.eqb a a'); [destruct op; cbn; lia | cbn; lia].
     - apply (proj1 (emits_BSeq _ _)) in H. cbn [maxcount].
@@ -119,7 +119,7 @@ Lemma emits_events b : forall t, emits b t -> Forall (fun e => In (ev_attr e, ev
 Proof.
   induction b as [|a' op|l IH|l IH|x IH|x IH|x IH|l IH] using body_ind'; intros t H.
   - cbn [emits] in H. subst t. constructor.
-  - cbn [emits] in H. destruct H as [[e [-> [Ha [Ho Hok]]]] | [-> _]]; [|constructor].
+  - cbn [emits] in H. destruct H as [[e [-> [Ha [Ho Hok]]]] | ->]; [|constructor].
     constructor; [|constructor]. cbn [asgs]. split; [left; rewrite Ha, Ho; reflexivity | exact Hok].
   - apply (proj1 (emits_BSeq _ _)) in H. cbn [asgs].
     revert t H. induction IH as [|x l Hx Hl IHl]; intros t H; cbn [emits_seq] in H.
@@ -203,8 +203,9 @@ Section Build.
         * destruct (ev_vals e) as [|v vs] eqn:Ev.
           -- cbn [app]. apply IH; assumption.
           -- rewrite IH by assumption. rewrite <- app_assoc. reflexivity.
-        * destruct (ev_vals e) as [|v vs] eqn:Ev; [contradiction|].
-          rewrite IH by assumption. rewrite <- app_assoc. reflexivity.
+        * destruct (ev_vals e) as [|v vs] eqn:Ev.
+          -- cbn [app]. apply IH; assumption.
+          -- rewrite IH by assumption. rewrite <- app_assoc. reflexivity.
       + cbn [app]. apply IH; assumption.
   Qed.
 End Build.
